@@ -392,4 +392,94 @@ theorem tableKeys_eq (ps : List Nat) (body : RExpr) :
   have h3 := map_fst_zipIdx_map (localsE body) (fun i => ((i + (capturesOf ps body).length : Nat) : Int)) 0
   rw [h1, h2, h3]
 
+
+/-! ### what the checker's captured-assignment rule gives: assigned variables are the function's own -/
+
+mutual
+theorem assignedE_own : ∀ (e : RExpr) (o : List Nat), checkerAssignE (some o) e = true → ∀ x ∈ assignedE e, x ∈ o
+  | .lit, _, _, x, hx => by simp [assignedE] at hx
+  | .var _, _, _, x, hx => by simp [assignedE] at hx
+  | .op es, o, h, x, hx => by
+    simp only [checkerAssignE] at h; simp only [assignedE] at hx; exact assignedEs_own es o h x hx
+  | .ite c t f, o, h, x, hx => by
+    simp only [checkerAssignE, Bool.and_eq_true] at h
+    simp only [assignedE, List.mem_append] at hx
+    rcases hx with (hx | hx) | hx
+    · exact assignedE_own c o h.1.1 x hx
+    · exact assignedE_own t o h.1.2 x hx
+    · exact assignedE_own f o h.2 x hx
+  | .block ss, o, h, x, hx => by
+    simp only [checkerAssignE] at h; simp only [assignedE] at hx; exact assignedSs_own ss o h x hx
+  | .matchE s arms, o, h, x, hx => by
+    simp only [checkerAssignE, Bool.and_eq_true] at h
+    simp only [assignedE, List.mem_append] at hx
+    rcases hx with hx | hx
+    · exact assignedE_own s o h.1 x hx
+    · exact assignedArms_own arms o h.2 x hx
+  | .lam _ _, _, _, x, hx => by simp [assignedE] at hx
+  | .task _, _, _, x, hx => by simp [assignedE] at hx
+
+theorem assignedS_own : ∀ (s : RStmt) (o : List Nat), checkerAssignS (some o) s = true → ∀ x ∈ assignedS s, x ∈ o
+  | .let_ _ e, o, h, x, hx => by
+    simp only [checkerAssignS] at h; simp only [assignedS] at hx; exact assignedE_own e o h x hx
+  | .assignVar id e, o, h, x, hx => by
+    simp only [checkerAssignS, Bool.and_eq_true, List.contains_eq_mem, decide_eq_true_eq] at h
+    simp only [assignedS, List.mem_cons] at hx
+    rcases hx with rfl | hx
+    · exact h.1
+    · exact assignedE_own e o h.2 x hx
+  | .assignPlace _ t e, o, h, x, hx => by
+    simp only [checkerAssignS, Bool.and_eq_true] at h
+    simp only [assignedS, List.mem_append] at hx
+    rcases hx with hx | hx
+    · exact assignedE_own t o h.1 x hx
+    · exact assignedE_own e o h.2 x hx
+  | .expr e, o, h, x, hx => by
+    simp only [checkerAssignS] at h; simp only [assignedS] at hx; exact assignedE_own e o h x hx
+  | .while_ c body, o, h, x, hx => by
+    simp only [checkerAssignS, Bool.and_eq_true] at h
+    simp only [assignedS, List.mem_append] at hx
+    rcases hx with hx | hx
+    · exact assignedE_own c o h.1 x hx
+    · exact assignedSs_own body o h.2 x hx
+  | .for_ _ it body, o, h, x, hx => by
+    simp only [checkerAssignS, Bool.and_eq_true] at h
+    simp only [assignedS, List.mem_append] at hx
+    rcases hx with hx | hx
+    · exact assignedE_own it o h.1 x hx
+    · exact assignedSs_own body o h.2 x hx
+  | .break_, _, _, x, hx => by simp [assignedS] at hx
+  | .continue_, _, _, x, hx => by simp [assignedS] at hx
+  | .ret e, o, h, x, hx => by
+    simp only [checkerAssignS] at h; simp only [assignedS] at hx; exact assignedE_own e o h x hx
+
+theorem assignedSs_own : ∀ (ss : RStmts) (o : List Nat), checkerAssignSs (some o) ss = true → ∀ x ∈ assignedSs ss, x ∈ o
+  | .nil, _, _, x, hx => by simp [assignedSs] at hx
+  | .cons s r, o, h, x, hx => by
+    simp only [checkerAssignSs, Bool.and_eq_true] at h
+    simp only [assignedSs, List.mem_append] at hx
+    rcases hx with hx | hx
+    · exact assignedS_own s o h.1 x hx
+    · exact assignedSs_own r o h.2 x hx
+
+theorem assignedEs_own : ∀ (es : RExprs) (o : List Nat), checkerAssignEs (some o) es = true → ∀ x ∈ assignedEs es, x ∈ o
+  | .nil, _, _, x, hx => by simp [assignedEs] at hx
+  | .cons e r, o, h, x, hx => by
+    simp only [checkerAssignEs, Bool.and_eq_true] at h
+    simp only [assignedEs, List.mem_append] at hx
+    rcases hx with hx | hx
+    · exact assignedE_own e o h.1 x hx
+    · exact assignedEs_own r o h.2 x hx
+
+theorem assignedArms_own : ∀ (arms : RArms) (o : List Nat), checkerAssignArms (some o) arms = true →
+    ∀ x ∈ assignedArms arms, x ∈ o
+  | .nil, _, _, x, hx => by simp [assignedArms] at hx
+  | .cons _ body r, o, h, x, hx => by
+    simp only [checkerAssignArms, Bool.and_eq_true] at h
+    simp only [assignedArms, List.mem_append] at hx
+    rcases hx with hx | hx
+    · exact assignedE_own body o h.1 x hx
+    · exact assignedArms_own r o h.2 x hx
+end
+
 end Abra.Analysis
